@@ -4,12 +4,12 @@ from __future__ import annotations
 import simplify
 
 ID = "C02"
-THEOREMS = ["simplify_sound_of_checked", "simpCk_refines_simp", "simplifyCk_refines_simplify", "simplifyCk_preserves", "simplifyCk_refines", "simpCk_sound", "sem_attr_first", "sem_called_lambda", "rename_le_both",
+THEOREMS = ["simplify_fuel_irrelevant", "simplify_sound_of_checked", "simpCk_refines_simp", "simplifyCk_refines_simplify", "simplifyCk_preserves", "simplifyCk_refines", "simpCk_sound", "sem_attr_first", "sem_called_lambda", "rename_le_both",
             "select_identity_sem", "makeSelect_sem", "makeArgsUnique_counter", "freshNames_mem", "lambdaIsIdentity_sound",
             "rule_select_select", "rule_selectMany_select", "rule_where_select", "rule_where_where", "rule_select_selectMany",
             "rule_where_selectMany", "rule_selectMany_selectMany", "rule_first_attr", "rule_first_sub", "rule_tuple_index", "rule_list_index",
             "denLz_coincide", "denLz_mono", "denLz_wf", "denLz_noPoison", "sel_sel", "whr_whr", "whr_sel", "many_sel", "sel_many", "whr_many", "many_many", "first_sel"]
-LEANCHECKER_MODULES = ["Fadl.Props.C02Refine", "Fadl.Props.C02Main", "Fadl.Props.C02Sound", "Fadl.Props.C02Called", "Fadl.Lemmas.Rename", "Fadl.Props.C02", "Fadl.Props.C02Rules", "Fadl.Lemmas.Coincide", "Fadl.Lemmas.MonoLz", "Fadl.Lemmas.LazyRules"]  # re-checked by leanchecker in the thorough tier
+LEANCHECKER_MODULES = ["Fadl.Props.C18Fuel", "Fadl.Props.C02Refine", "Fadl.Props.C02Main", "Fadl.Props.C02Sound", "Fadl.Props.C02Called", "Fadl.Lemmas.Rename", "Fadl.Props.C02", "Fadl.Props.C02Rules", "Fadl.Lemmas.Coincide", "Fadl.Lemmas.MonoLz", "Fadl.Lemmas.LazyRules"]  # re-checked by leanchecker in the thorough tier
 RULE = (
     "seeded sort-directed closed queries over Select/Where/SelectMany/First/Count/len/Sum/Max/Min in function form (half "
     "of them converted from method form by the shipped pass), nested lambdas, called lambdas with positional and keyword "
